@@ -1,4 +1,4 @@
-from planlib import geo
+from planlib import geo, desc_fuzz
 
 # (name, lgmin, lgmax, lgthr, lglarge, needs avx512f, base count at small sizes) -- same order as the table in props/c07.cpp
 PAIRS = [
@@ -128,5 +128,6 @@ PLAN = dict(
                  "AVX-512 pairs only run when the host reports avx512f (otherwise counted as skipped:no-avx512f)",
                  "cplx_fftvec_bitwiddle_{fma,avx512} are not in the table: no reference kernel with a defined semantic exists for them"],
     quick=_jobs("quick"), thorough=_jobs("thorough"),
+    fuzz=desc_fuzz("C07", fix=dict(lg=(0, 10), logm=(0, 10), k=(1, 9))),
     required_classes=dict(all=_req),
 )
